@@ -13,7 +13,7 @@ import (
 // through OnSurvey, from a query sent by another broker: safety for ANY query - no panic, and no allocation sized
 // by that number.
 
-//@ verify (*SSD).lookup pre=pre_SSD_lookup props=C09 makebound=4096
+// @ verify (*SSD).lookup pre=pre_SSD_lookup props=C09 makebound=4096
 func pre_SSD_lookup(s *SSD) bool { return s != nil && s.db != nil }
 
 // ---------------------------------------------------------------------------------------------------------
@@ -30,17 +30,17 @@ func pre_SSD_lookup(s *SSD) bool { return s != nil && s.db != nil }
 // The loop is explored for one stored key in the quick tier and two in the thorough tier (stated bounded); completeness of an unbounded scan rests on the
 // key-order lemmas of C06.
 
-//@ assume (github.com/emitter-io/emitter/internal/message.ID).Match iface
-//@ assume (github.com/emitter-io/emitter/internal/message.ID).HasPrefix iface
-//@ assume github.com/emitter-io/emitter/internal/message.NewPrefix iface post=post_NewPrefix_assumed
+// @ assume (github.com/emitter-io/emitter/internal/message.ID).Match iface
+// @ assume (github.com/emitter-io/emitter/internal/message.ID).HasPrefix iface
+// @ assume github.com/emitter-io/emitter/internal/message.NewPrefix iface post=post_NewPrefix_assumed
 func post_NewPrefix_assumed(res0 message.ID) bool { return len(res0) == 8 }
 
 //@ assume loadMessage iface
 
-//@ verify (*SSD).lookup$1 pre=pre_lookup_scan post=post_lookup_seek_first,post_lookup_seek_next,post_lookup_guard,post_lookup_limit props=C06 as=scan1
-//@ loop (*SSD).lookup$1 0 unroll 1 bounded for=scan1
-//@ verify (*SSD).lookup$1 pre=pre_lookup_scan post=post_lookup_seek_first,post_lookup_seek_next,post_lookup_guard,post_lookup_limit props=C06 as=scan2 tier=thorough
-//@ loop (*SSD).lookup$1 0 unroll 2 bounded for=scan2
+// @ verify (*SSD).lookup$1 pre=pre_lookup_scan post=post_lookup_seek_first,post_lookup_seek_next,post_lookup_guard,post_lookup_limit props=C06 as=scan1
+// @ loop (*SSD).lookup$1 0 unroll 1 bounded for=scan1
+// @ verify (*SSD).lookup$1 pre=pre_lookup_scan post=post_lookup_seek_first,post_lookup_seek_next,post_lookup_guard,post_lookup_limit props=C06 as=scan2 tier=thorough
+// @ loop (*SSD).lookup$1 0 unroll 2 bounded for=scan2
 func pre_lookup_scan(tx *badger.Txn, q lookupQuery, matches message.Frame) bool {
 	return tx != nil && len(matches) == 0 && cap(matches) <= 128
 }
